@@ -401,7 +401,7 @@ pub fn drive<P: Property>(p: &P, tier: Tier) -> i32 {
     }
 
     // ---- generated tier ----------------------------------------------------------------------
-    let threads = p.threads().max(1);
+    let threads = std::env::var("PVERIF_THREADS").ok().and_then(|s| s.parse::<usize>().ok()).unwrap_or_else(|| p.threads()).max(1);
     let cases_total = p.cases(tier);
     let per_thread = (cases_total as usize + threads - 1) / threads;
     let aggs: Mutex<Vec<(usize, ThreadAgg, Option<(P::Case, Violation)>)>> = Mutex::new(vec![]);
@@ -613,4 +613,44 @@ pub fn generate_one<S: Strategy>(s: &S, seed: u64) -> S::Value {
     cfg.failure_persistence = None;
     let mut r = TestRunner::new(cfg);
     s.new_tree(&mut r).unwrap().current()
+}
+
+
+thread_local! {
+    static FUZZ_KNOWN: std::cell::RefCell<Option<(String, Known)>> = std::cell::RefCell::new(None);
+}
+
+/// One fuzz iteration: the bytes are the entropy of the property's own generators (proptest's pass-through RNG,
+/// made for fuzzers), so libFuzzer mutates exactly the space the proptest tiers sample. Returns the replay path
+/// if the generated case violates the property (known findings are tolerated and excluded).
+pub fn fuzz_one<P: Property>(p: &P, data: &[u8]) -> Option<String> {
+    use proptest::test_runner::TestRng;
+    let id = p.id();
+    FUZZ_KNOWN.with(|k| {
+        let mut k = k.borrow_mut();
+        if k.as_ref().map(|(i, _)| i != id).unwrap_or(true) {
+            *k = Some((id.to_string(), Known::load(id)));
+        }
+    });
+    let mut cfg = Config::default();
+    cfg.failure_persistence = None;
+    cfg.source_file = None;
+    let rng = TestRng::from_seed(RngAlgorithm::PassThrough, data);
+    let mut runner = TestRunner::new_with_rng(cfg, rng);
+    let strat = p.strategy(Tier::Quick);
+    let case = match strat.new_tree(&mut runner) {
+        Ok(t) => t.current(),
+        Err(_) => return None,
+    };
+    FUZZ_KNOWN.with(|k| {
+        let k = k.borrow();
+        let known = &k.as_ref().unwrap().1;
+        let ctx = Ctx {
+            known,
+            tier: Tier::Quick,
+            want_summary: false,
+        };
+        let out = p.run_case(&case, &ctx);
+        out.violation.map(|v| write_replay(id, &case, &v, "libfuzzer", 0).display().to_string())
+    })
 }
